@@ -11,9 +11,9 @@ ASSUMPTIONS = [
     "exercised, not proved, here; address validation/normalisation (base58/59 + sha256 checksum; the type is derived from the text) is the Section "
     "variable addr_norm; theorems about codecs containing addresses carry the premise addr_norm_sound (result is a type "
     "byte, at most VBK_ADDRESS_SIZE bytes, normalisation idempotent)",
-    "MerklePath::subject (not serialised) and the memoised hash_ fields are outside the model value; ids/hashes are "
-    "compared by the implementation's own oracle only (VbkTx/VbkPopTx/BtcTx/BtcBlock hashes; ATV/VTB/VbkBlock ids need "
-    "progpow and are not recomputed in the quick tier)",
+    "MerklePath::subject (not serialised) and the memoised hash_ fields are outside the model value; the hash "
+    "functions themselves (sha256, progpow) are abstract in the theorems; the real memoised paths are compared by the "
+    "implementation's own oracle (memo sequences, VBK heights below 8000 so that one ethash epoch cache is reused)",
 ]
 META = {
     "text": "Theorems (Coq, all values / all byte strings, no size bound): for the serde primitives (single-BE int64 with "
@@ -34,9 +34,16 @@ META = {
             "(cross-checked against the compiled headers on every run). _partial: for VbkTx/VbkPopTx/ATV/VTB/"
             "PopData round trip and stability need `fits` (canonical size of each nested buffer within the limit of its "
             "length prefix); it is not implied by decodability (the decoder accepts shorter non-canonical encodings; "
-            "MAX_PUBLICATIONDATA_SIZE is 6 bytes smaller than the largest canonical PublicationData). Not modelled: BFI "
-            "wire types, PopPayouts, ids/hashes (content-only dependence of VbkTx/VbkPopTx/BtcTx/BtcBlock hashes is "
-            "checked by the implementation oracle; ATV/VTB/VbkBlock ids need progpow and are not recomputed). Stored "
+            "MAX_PUBLICATIONDATA_SIZE is 6 bytes smaller than the largest canonical PublicationData). Two boundary "
+            "statements are REFUTED for the code as it is (C11_VbkTx_pubdata_max_size_refuted, "
+            "C11_reencode_at_size_limit_refuted) and replayed on the implementation under the keys "
+            "C11:pubdata-max-size-6-short (quick+thorough) and C11:noncanonical-at-size-limit (thorough, 5.5 MB inputs); any "
+            "other failure in those ranges is a plain violation. C11_ids_of_content: ids/hashes are functions of the raw "
+            "encodings only (abstract hash functions); C11_id_memo_transparent: every sequence of setters and getHash calls on "
+            "a memoised block answers hash(raw current content). The real memo code is exercised by API sequences (op memo: "
+            "hash; mutate one field through every public setter of VbkBlock/BtcBlock and the public members of ATV/VTB; hash) "
+            "compared with a fresh object decoded from the same encoding, incl. progpow hashes. Not modelled: BFI wire types, "
+            "PopPayouts. Stored "
             "indices are decoded from bytes only (no enc op).",
     "technique": "Coq proof (codec combinators, structural induction) + extraction-based differential correspondence",
 }
@@ -70,6 +77,8 @@ def run(ctx):
     quick = ctx.tier == "quick"
     if ctx.replay and ctx.replay.get("key") in (S.KEY_PUBDATA, S.KEY_LIMIT):
         return replay_boundary(ctx, H, c)
+    if ctx.replay and "cases" in ctx.replay and ctx.replay["cases"] and ctx.replay["cases"][0][1] == "memo":
+        return memo_sequences(ctx, H, ctx.rng, [tuple(x) for x in ctx.replay["cases"]])
     if ctx.replay and "cases" in ctx.replay:
         cases = [tuple(x) for x in ctx.replay["cases"]]
         return compare(ctx, model, H, cases, {}, replaying=True)
@@ -147,6 +156,30 @@ def run(ctx):
     ctx.cov["boundary_hits"] = dict(sorted(g.hits.items()))
     compare(ctx, model, H, cases, {"types": len(S.TYPES)})
     boundary_findings(ctx, model, H, c, r)
+    memo_sequences(ctx, H, r)
+
+
+def memo_sequences(ctx, H, r, cases=None):
+    """ids/hashes must be a function of the content in EVERY memo state: hash; mutate one field through the public API;
+    hash — compared by the harness with a fresh object decoded from the same encoding (implementation oracle only)"""
+    mc = cases if cases is not None else S.memo_cases(r, ctx.tier == "quick")
+    res, orc, crashes = S.run_impl_bisect(ctx, H, mc, timeout=900, tag="memo")
+    byid = {x[0]: x for x in mc}
+    for i, text in orc[:5]:
+        ctx.violation({"kind": "input", "cases": [list(byid[i])] if i in byid else [], "oracle": text,
+                       "what": "memoised hash/id is not a function of the current content"})
+    for x in mc:
+        v = res.get(x[0], "")
+        if not v.startswith("OK") and not any(i == x[0] for i, _ in orc):
+            ctx.violation({"kind": "input", "cases": [list(x)], "impl": v[:300],
+                           "what": "memo sequence did not complete (throw / bad value)"})
+            break
+    for case, rc, err in crashes[:2]:
+        ctx.violation({"kind": "input", "cases": [list(case)] if case else [], "rc": rc, "stderr": err,
+                       "what": "harness process died on a memo sequence"})
+    ctx.cov["memo_sequences"] = {"run": len(mc), "entities": dict(S.MEMO_SETTERS),
+                                 "hash_reads": sum(int(v.split()[1]) for v in res.values() if v.startswith("OK"))}
+    ctx.cov["evaluations"] += len(mc)
 
 
 def replay_boundary(ctx, H, c):
